@@ -117,8 +117,8 @@ Qed.
 (* ------------------------------------------------------------------ *)
 (* unfolding equations of pack / exact                                  *)
 Section Eqns.
-  Variables (E: env) (m: mode) (dl: option bool).
-  Notation pk := (pack E m dl).
+  Variables (E: env) (m: mode) (call dflt: opts).
+  Notation pk := (pack E m call dflt).
 
   Lemma pack_TUnion v ts :
     pk v (TUnion ts) =
@@ -152,7 +152,7 @@ Section Eqns.
   Lemma pack_TData_obj rc fs c :
     pk (VObj rc fs) (TData c) =
       match target E m c rc with
-      | Some d => pack_fields_cl m dl d (map (fun kv => match kv with (k, x) => (k, pk x) end) fs)
+      | Some d => pack_fields_cl call dflt d (map (fun kv => match kv with (k, x) => (k, (is_none x, pk x)) end) fs)
       | None => Err XRaw
       end.
   Proof. reflexivity. Qed.
@@ -212,7 +212,8 @@ Proof. intros H. unfold dispatch. simpl. rewrite H. rewrite orb_true_r. reflexiv
    builder compiled it); new classes appear under new names. *)
 Definition same_shape (d d': cdef) : Prop :=
   c_name d = c_name d' /\ c_parent d = c_parent d' /\ c_fields d = c_fields d' /\
-  c_by_alias d = c_by_alias d' /\ (c_has_method d = true -> c_has_method d' = true).
+  (c_by_alias d = c_by_alias d' /\ c_omit_none d = c_omit_none d') /\
+  (c_has_method d = true -> c_has_method d' = true).
 Definition extends (E X: env) : Prop :=
   forall c d, find_cls E c = Some d -> exists d', find_cls X c = Some d' /\ same_shape d d'.
 
@@ -222,8 +223,8 @@ Lemma extends_refl E : extends E E.
 Proof. intros c d H. exists d. split; [exact H|apply same_shape_refl]. Qed.
 Lemma extends_trans E1 E2 E3 : extends E1 E2 -> extends E2 E3 -> extends E1 E3.
 Proof.
-  intros H12 H23 c d H. destruct (H12 c d H) as [d2 [H2 [S1 [S2 [S3 [S4 S5]]]]]].
-  destruct (H23 c d2 H2) as [d3 [H3 [T1 [T2 [T3 [T4 T5]]]]]].
+  intros H12 H23 c d H. destruct (H12 c d H) as [d2 [H2 [S1 [S2 [S3 [[S4 S4'] S5]]]]]].
+  destruct (H23 c d2 H2) as [d3 [H3 [T1 [T2 [T3 [[T4 T4'] T5]]]]]].
   exists d3. split; [exact H3|]. repeat split; try congruence. intros Hm. apply T5, S5, Hm.
 Qed.
 
@@ -239,31 +240,27 @@ Qed.
    Instances: X = E, m = Mixin  -> the two paths agree;
               X = E', m = m     -> frame (creating classes changes nothing).                  *)
 Section Agree.
-  Variables (E X: env) (m: mode) (dl: option bool).
+  (* [c1 d1]: the dialect layers (call, default) of the path under test; [c2 d2]: those of the reference *)
+  Variables (E X: env) (m: mode) (c1 d1 c2 d2: opts).
   Hypothesis Hext : extends E X.
   Hypothesis Henv : no_lookalike_env E = true.
-  Hypothesis Hdl : dialect_compat E dl = true.
+  (* the two layerings resolve every option of every class alike *)
+  Hypothesis Hopts : forall d d', In d E -> same_shape d d' ->
+    eff_by_alias c1 d1 d' = eff_by_alias c2 d2 d /\ eff_omit_none c1 d1 d' = eff_omit_none c2 d2 d.
   Hypothesis Hnames : names_ok E = true.
 
-  Notation pm := (pack X m dl).
-  Notation pc := (pack E Codec dl).
-  Notation closX := (fun kv : string * val => match kv with (k, x) => (k, pack X m dl x) end).
-  Notation closE := (fun kv : string * val => match kv with (k, x) => (k, pack E Codec dl x) end).
+  Notation pm := (pack X m c1 d1).
+  Notation pc := (pack E Codec c2 d2).
+  Notation closX := (fun kv : string * val => match kv with (k, x) => (k, (is_none x, pack X m c1 d1 x)) end).
+  Notation closE := (fun kv : string * val => match kv with (k, x) => (k, (is_none x, pack E Codec c2 d2 x)) end).
   Notation eclos := (fun kv : string * val => match kv with (k, x) => (k, exact E x) end).
 
   Definition good (v: val) : Prop :=
     forall t, exact E v t = true -> no_lookalike_ty E t = true ->
       pm v t = pc v t /\ exists y, pc v t = Ok y.
 
-  Lemma key_eq d d' f : In d E -> same_shape d d' -> key_of m dl d' f = key_of Codec dl d f.
-  Proof.
-    intros Hin [_ [_ [_ [Hba _]]]]. unfold key_of, eff_by_alias. rewrite <- Hba.
-    unfold dialect_compat in Hdl.
-    destruct dl as [b|]; [|destruct m; reflexivity].
-    rewrite forallb_forall in Hdl. specialize (Hdl d Hin).
-    destruct (c_by_alias d) as [b'|]; simpl; [|destruct m; reflexivity].
-    apply Bool.eqb_prop in Hdl. subst. destruct m; reflexivity.
-  Qed.
+  Lemma key_eq d d' f : In d E -> same_shape d d' -> key_of c1 d1 d' f = key_of c2 d2 d f.
+  Proof. intros Hin Hsh. unfold key_of. rewrite (proj1 (Hopts d d' Hin Hsh)). reflexivity. Qed.
 
   Lemma field_ty_ok d f : In d E -> In f (c_fields d) -> no_lookalike_ty E (f_ty f) = true.
   Proof.
@@ -308,8 +305,8 @@ Section Agree.
     In d E -> same_shape d d' ->
     exact_fields (map eclos fs) (c_fields d) = true ->
     Forall (fun kv => good (snd kv)) fs ->
-    pack_fields_cl m dl d' (map closX fs) = pack_fields_cl Codec dl d (map closE fs) /\
-    exists y, pack_fields_cl Codec dl d (map closE fs) = Ok y.
+    pack_fields_cl c1 d1 d' (map closX fs) = pack_fields_cl c2 d2 d (map closE fs) /\
+    exists y, pack_fields_cl c2 d2 d (map closE fs) = Ok y.
   Proof.
     intros Hd Hsh Hex Hall. unfold pack_fields_cl.
     assert (Hflds: c_fields d' = c_fields d) by (destruct Hsh as [_ [_ [H _]]]; symmetry; exact H).
@@ -322,15 +319,21 @@ Section Agree.
       exists x, y. repeat split; [exact Ha|rewrite Heq; exact Hy|exact Hy]. }
     split.
     - f_equal. apply mapM_ext_in. intros f Hin. destruct (Hf f Hin) as [x [y [Ha [Hm Hc]]]].
-      rewrite (assoc_map (pack X m dl)), (assoc_map (pack E Codec dl)). rewrite Ha. simpl.
+      rewrite (assoc_map (fun x => (is_none x, pack X m c1 d1 x))), (assoc_map (fun x => (is_none x, pack E Codec c2 d2 x))).
+      rewrite Ha. simpl. rewrite (proj2 (Hopts d d' Hd Hsh)).
+      destruct (eff_omit_none c2 d2 d && is_none x && is_opt (f_ty f)); [reflexivity|].
       rewrite Hm, Hc. rewrite (key_eq d d' f Hd Hsh). reflexivity.
     - destruct (mapM_ok (fun f => match assoc (map closE fs) (f_name f) with
                                   | None => Err XRaw
-                                  | Some g => match g (f_ty f) with
-                                              | Ok y => Ok (key_of Codec dl d f, y)
-                                              | Err e => Err e end end) (c_fields d)) as [ys Hys].
+                                  | Some (isn, g) =>
+                                      if eff_omit_none c2 d2 d && isn && is_opt (f_ty f) then Ok []
+                                      else match g (f_ty f) with
+                                           | Ok y => Ok [(key_of c2 d2 d f, y)]
+                                           | Err e => Err e end end) (c_fields d)) as [ys Hys].
       + intros f Hin. destruct (Hf f Hin) as [x [y [Ha [Hm Hc]]]].
-        rewrite (assoc_map (pack E Codec dl)). rewrite Ha. simpl. rewrite Hc. eexists; reflexivity.
+        rewrite (assoc_map (fun x => (is_none x, pack E Codec c2 d2 x))). rewrite Ha. simpl.
+        destruct (eff_omit_none c2 d2 d && is_none x && is_opt (f_ty f)); [eexists; reflexivity|].
+        rewrite Hc. eexists; reflexivity.
       + rewrite Hys. eexists; reflexivity.
   Qed.
 
@@ -364,16 +367,16 @@ Section Agree.
 
   (* dynamic dispatch: any member's call reaches the runtime class's own method *)
   Lemma mixin_dynamic a b fs :
-    has_method X b = true -> pack X Mixin dl (VObj b fs) (TData a) = pack X Mixin dl (VObj b fs) (TData b).
+    has_method X b = true -> pack X Mixin c1 d1 (VObj b fs) (TData a) = pack X Mixin c1 d1 (VObj b fs) (TData b).
   Proof.
     intros H. rewrite !pack_TData_obj. unfold target. rewrite (dispatch_has X a b H), dispatch_self. reflexivity.
   Qed.
 
   (* static dispatch of another member's packer fails on a distinguishable instance *)
-  Lemma codec_static_err Y a b fs :
+  Lemma codec_static_err Y ca da_ a b fs :
     extends E Y ->
     exact E (VObj b fs) (TData b) = true -> distinguishes E a b = true ->
-    is_err (pack Y Codec dl (VObj b fs) (TData a)).
+    is_err (pack Y Codec ca da_ (VObj b fs) (TData a)).
   Proof.
     intros HextY Hex Hdist. destruct (exact_obj_inv _ _ _ Hex) as [_ [db [Hfb Hfs]]].
     unfold distinguishes in Hdist. rewrite Hfb in Hdist.
@@ -383,16 +386,16 @@ Section Agree.
     rewrite pack_TData_obj. unfold target. rewrite Hfa'. unfold pack_fields_cl. rewrite <- Hflds.
     apply fmap_err. unfold field_names in Hn. apply in_map_iff in Hn. destruct Hn as [f [Hfn Hf]].
     apply (mapM_err _ _ f Hf).
-    rewrite (assoc_map (pack Y Codec dl)). rewrite assoc_none; [simpl; eexists; reflexivity|].
+    rewrite (assoc_map (fun x => (is_none x, pack Y Codec ca da_ x))). rewrite assoc_none; [simpl; eexists; reflexivity|].
     rewrite (exact_fields_names _ _ Hfs). intros Hin. rewrite Hfn in Hin.
     apply negb_true_iff in Hnot. apply str_in_In in Hin. unfold field_names in Hnot. rewrite Hin in Hnot. discriminate.
   Qed.
 
-  Lemma nonobj_err Y m' a v :
+  Lemma nonobj_err Y m' ca da_ a v :
     extends E Y ->
     (forall rc fs, v <> VObj rc fs) ->
     (exists da, find_cls E a = Some da /\ c_fields da <> []) ->
-    is_err (pack Y m' dl v (TData a)).
+    is_err (pack Y m' ca da_ v (TData a)).
   Proof.
     intros HextY Hv [da [Hfa Hne]].
     destruct (HextY a da Hfa) as [da' [Hfa' [_ [_ [Hflds _]]]]].
@@ -556,45 +559,91 @@ Section Agree.
   Qed.
 End Agree.
 
+(* how the two placements of ONE dialect resolve: call-time (mixin) vs default (codec) *)
+Lemma layers_swap E o : dialect_compat_o E o = true ->
+  forall d d', In d E -> same_shape d d' ->
+    eff_by_alias o no_opts d' = eff_by_alias no_opts o d /\ eff_omit_none o no_opts d' = eff_omit_none no_opts o d.
+Proof.
+  intros Hc d d' Hin [_ [_ [_ [[Hba Hon] _]]]]. unfold dialect_compat_o in Hc. rewrite forallb_forall in Hc.
+  specialize (Hc d Hin). apply andb_true_iff in Hc. destruct Hc as [H1 H2].
+  unfold eff_by_alias, eff_omit_none. rewrite <- Hba, <- Hon. simpl.
+  unfold opt_compat in H1, H2.
+  split.
+  - destruct (o_by_alias o) as [b|], (c_by_alias d) as [b'|]; simpl; try reflexivity.
+    apply Bool.eqb_prop in H1. subst. reflexivity.
+  - destruct (o_omit_none o) as [b|], (c_omit_none d) as [b'|]; simpl; try reflexivity.
+    apply Bool.eqb_prop in H2. subst. reflexivity.
+Qed.
+
+Lemma layers_same c0 d0 : forall (E: env) d d', In d E -> same_shape d d' ->
+    eff_by_alias c0 d0 d' = eff_by_alias c0 d0 d /\ eff_omit_none c0 d0 d' = eff_omit_none c0 d0 d.
+Proof.
+  intros E d d' _ [_ [_ [_ [[Hba Hon] _]]]]. unfold eff_by_alias, eff_omit_none. rewrite Hba, Hon. split; reflexivity.
+Qed.
+
+Theorem agree_exact_o E o t v :
+  no_lookalike_union E t = true -> dialect_compat_o E o = true -> names_ok E = true ->
+  exact E v t = true ->
+  run_pack_o E Mixin o t v = run_pack_o E Codec o t v /\ exists y, run_pack_o E Codec o t v = Ok y.
+Proof.
+  intros Hl Hd Hn Hex. unfold no_lookalike_union in Hl. apply andb_true_iff in Hl. destruct Hl as [Ht He].
+  exact (all_good E E Mixin o no_opts no_opts o (extends_refl E) He (layers_swap E o Hd) Hn v t Hex Ht).
+Qed.
+
 Theorem agree_exact E dl t v :
   no_lookalike_union E t = true -> dialect_compat E dl = true -> names_ok E = true ->
   exact E v t = true ->
   run_pack E Mixin dl t v = run_pack E Codec dl t v.
-Proof.
-  intros Hl Hd Hn Hex. unfold no_lookalike_union in Hl. apply andb_true_iff in Hl. destruct Hl as [Ht He].
-  exact (proj1 (all_good E E Mixin dl (extends_refl E) He Hd Hn v t Hex Ht)).
-Qed.
+Proof. intros Hl Hd Hn Hex. exact (proj1 (agree_exact_o E (mkO dl None) t v Hl Hd Hn Hex)). Qed.
 
 Theorem exact_serializes E dl t v :
   no_lookalike_union E t = true -> dialect_compat E dl = true -> names_ok E = true ->
   exact E v t = true ->
   exists y, run_pack E Codec dl t v = Ok y /\ run_pack E Mixin dl t v = Ok y.
 Proof.
-  intros Hl Hd Hn Hex. unfold no_lookalike_union in Hl. apply andb_true_iff in Hl. destruct Hl as [Ht He].
-  destruct (all_good E E Mixin dl (extends_refl E) He Hd Hn v t Hex Ht) as [Heq [y Hy]].
+  intros Hl Hd Hn Hex. destruct (agree_exact_o E (mkO dl None) t v Hl Hd Hn Hex) as [Heq [y Hy]].
   exists y. unfold run_pack. rewrite Heq. split; exact Hy.
 Qed.
 
 (* frame: running any path in an extended table gives what it gave before *)
+Theorem frame_exact_o E X m o t v :
+  extends E X ->
+  no_lookalike_union E t = true -> dialect_compat_o E o = true -> names_ok E = true ->
+  exact E v t = true ->
+  run_pack_o X m o t v = run_pack_o E m o t v.
+Proof.
+  intros Hext Hl Hd Hn Hex. unfold no_lookalike_union in Hl. apply andb_true_iff in Hl. destruct Hl as [Ht He].
+  destruct m; unfold run_pack_o.
+  - transitivity (pack E Codec no_opts o v t).
+    + exact (proj1 (all_good E X Mixin o no_opts no_opts o Hext He (layers_swap E o Hd) Hn v t Hex Ht)).
+    + symmetry. exact (proj1 (all_good E E Mixin o no_opts no_opts o (extends_refl E) He (layers_swap E o Hd) Hn v t Hex Ht)).
+  - exact (proj1 (all_good E X Codec no_opts o no_opts o Hext He (layers_same no_opts o E) Hn v t Hex Ht)).
+Qed.
+
 Theorem frame_exact E X m dl t v :
   extends E X ->
   no_lookalike_union E t = true -> dialect_compat E dl = true -> names_ok E = true ->
   exact E v t = true ->
   run_pack X m dl t v = run_pack E m dl t v.
-Proof.
-  intros Hext Hl Hd Hn Hex. unfold no_lookalike_union in Hl. apply andb_true_iff in Hl. destruct Hl as [Ht He].
-  unfold run_pack.
-  rewrite (proj1 (all_good E X m dl Hext He Hd Hn v t Hex Ht)).
-  rewrite (proj1 (all_good E E m dl (extends_refl E) He Hd Hn v t Hex Ht)). reflexivity.
-Qed.
+Proof. intros Hext Hl Hd Hn Hex. exact (frame_exact_o E X m (mkO dl None) t v Hext Hl Hd Hn Hex). Qed.
 
 (* ------------------------------------------------------------------ *)
 (* compositionality: a codec for a composite shape = the element codec elementwise           *)
-Section Comp.
-  Variables (E: env) (m: mode) (dl: option bool).
-  Notation rp := (run_pack E m dl).
+(* positional: element i with type i *)
+Fixpoint zipM (f: ty -> val -> res val) (ts: list ty) (l: list val) : res (list val) :=
+  match ts, l with
+  | [], _ => Ok []
+  | t :: tr, x :: r => match f t x with
+                       | Ok y => match zipM f tr r with Ok ys => Ok (y :: ys) | Err e => Err e end
+                       | Err e => Err e end
+  | _ :: _, [] => Err XRaw
+  end.
 
-  Lemma ident_pack t : copy_ident t = true -> forall v, pack E m dl v t = Ok v.
+Section Comp.
+  Variables (E: env) (m: mode) (call dflt: opts).
+  Notation rp := (fun t v => pack E m call dflt v t).
+
+  Lemma ident_pack t : copy_ident t = true -> forall v, pack E m call dflt v t = Ok v.
   Proof.
     destruct t; simpl; intros H v; try discriminate H; try (destruct v; reflexivity).
     rewrite pack_TUnion. simpl in H. rewrite H. reflexivity.
@@ -605,8 +654,8 @@ Section Comp.
 
   Theorem comp_list t l : rp (TList t) (VList l) = fmap VList (mapM (rp t) l).
   Proof.
-    unfold run_pack. rewrite pack_TList_list. destruct (copy_ident t) eqn:Hc; [|reflexivity].
-    rewrite (mapM_ext_in (fun x => pack E m dl x t) (fun x => Ok x) l (fun x _ => ident_pack t Hc x)).
+    cbv beta. rewrite pack_TList_list. destruct (copy_ident t) eqn:Hc; [|reflexivity].
+    rewrite (mapM_ext_in (fun x => pack E m call dflt x t) (fun x => Ok x) l (fun x _ => ident_pack t Hc x)).
     rewrite mapM_id. reflexivity.
   Qed.
 
@@ -614,61 +663,56 @@ Section Comp.
     rp (TDict t) (VDict kvs) =
     fmap VDict (mapM (fun kv => fmap (pair (fst kv)) (rp t (snd kv))) kvs).
   Proof.
-    unfold run_pack. rewrite pack_TDict_dict. destruct (copy_ident t) eqn:Hc.
+    cbv beta. rewrite pack_TDict_dict. destruct (copy_ident t) eqn:Hc.
     - rewrite (mapM_ext_in _ (fun kv => Ok kv) kvs).
       + rewrite mapM_id. reflexivity.
       + intros [k x] _. simpl. rewrite (ident_pack t Hc x). reflexivity.
-    - f_equal. apply mapM_ext_in. intros [k x] _. simpl. destruct (pack E m dl x t); reflexivity.
+    - f_equal. apply mapM_ext_in. intros [k x] _. simpl. destruct (pack E m call dflt x t); reflexivity.
   Qed.
 
-  (* positional: element i with type i *)
-  Fixpoint zipM (ts: list ty) (l: list val) : res (list val) :=
-    match ts, l with
-    | [], _ => Ok []
-    | t :: tr, x :: r => match rp t x with
-                         | Ok y => match zipM tr r with Ok ys => Ok (y :: ys) | Err e => Err e end
-                         | Err e => Err e end
-    | _ :: _, [] => Err XRaw
-    end.
-
-  Lemma tuple_cl_zipM l ts : tuple_cl (map (pack E m dl) l) ts = zipM ts l.
+  Lemma tuple_cl_zipM l ts : tuple_cl (map (pack E m call dflt) l) ts = zipM rp ts l.
   Proof.
     revert l. induction ts as [|t tr IH]; intros l; destruct l as [|x r]; simpl; try reflexivity.
-    unfold run_pack. rewrite IH. reflexivity.
+    rewrite IH. reflexivity.
   Qed.
 
-  Theorem comp_tuple ts l : ts <> [] -> rp (TTuple ts) (VTuple l) = fmap VList (zipM ts l).
+  Theorem comp_tuple ts l : ts <> [] -> rp (TTuple ts) (VTuple l) = fmap VList (zipM rp ts l).
   Proof.
-    intros Hne. unfold run_pack. rewrite pack_TTuple_tuple. rewrite tuple_cl_zipM.
+    intros Hne. cbv beta. rewrite pack_TTuple_tuple. rewrite tuple_cl_zipM.
     destruct ts; [contradiction|reflexivity].
   Qed.
 
   Theorem comp_optional t v : rp (TOpt t) v = match v with VNone => Ok VNone | _ => rp t v end.
-  Proof. unfold run_pack. apply pack_TOpt. Qed.
+  Proof. cbv beta. apply pack_TOpt. Qed.
 
-  (* the nested-in-a-dataclass entry point: the outer to_dict applies the field packer to the attribute *)
+  (* the nested-in-a-dataclass entry point: the outer to_dict applies the field packer to the attribute (and skips a
+     nullable field that is None under omit_none) *)
   Theorem comp_field o d fs :
     find_cls E o = Some d ->
     rp (TData o) (VObj o fs) =
-    fmap VDict (mapM (fun f => match assoc fs (f_name f) with
-                               | None => Err XRaw
-                               | Some x => fmap (pair (key_of m dl d f)) (rp (f_ty f) x)
-                               end) (c_fields d)).
+    fmap (fun l => VDict (List.concat l))
+      (mapM (fun f => match assoc fs (f_name f) with
+                      | None => Err XRaw
+                      | Some x => if eff_omit_none call dflt d && is_none x && is_opt (f_ty f) then Ok []
+                                  else fmap (fun y => [(key_of call dflt d f, y)]) (rp (f_ty f) x)
+                      end) (c_fields d)).
   Proof.
-    intros Hf. unfold run_pack. rewrite pack_TData_obj.
+    intros Hf. cbv beta. rewrite pack_TData_obj.
     assert (Ht: target E m o o = Some d) by (unfold target; destruct m; [rewrite dispatch_self|]; exact Hf).
     rewrite Ht. unfold pack_fields_cl. f_equal. apply mapM_ext_in. intros f _.
-    rewrite (assoc_map (pack E m dl)). destruct (assoc fs (f_name f)) as [x|]; simpl; [|reflexivity].
-    destruct (pack E m dl x (f_ty f)); reflexivity.
+    rewrite (assoc_map (fun x => (is_none x, pack E m call dflt x))). destruct (assoc fs (f_name f)) as [x|]; simpl; [|reflexivity].
+    destruct (eff_omit_none call dflt d && is_none x && is_opt (f_ty f)); [reflexivity|].
+    destruct (pack E m call dflt x (f_ty f)); reflexivity.
   Qed.
 
-  (* Outer(f=x).to_dict()['f'] for a one-field wrapper class *)
+  (* Outer(f=x).to_dict()['f'] for a one-field wrapper class whose field is not dropped *)
   Corollary comp_wrapper w d t x :
     find_cls E w = Some d -> c_fields d = [mkF "f" None t] ->
+    eff_omit_none call dflt d && is_none x && is_opt t = false ->
     rp (TData w) (VObj w [("f", x)]) = fmap (fun y => VDict [("f", y)]) (rp t x).
   Proof.
-    intros Hf Hfl. rewrite (comp_field w d _ Hf). rewrite Hfl. simpl.
-    unfold key_of. simpl. destruct (eff_by_alias m dl d); destruct (rp t x); reflexivity.
+    intros Hf Hfl Hom. pose proof (comp_field w d [("f", x)] Hf) as Hc. cbv beta in Hc |- *. rewrite Hc. rewrite Hfl. simpl. rewrite Hom.
+    unfold key_of. simpl. destruct (eff_by_alias call dflt d); destruct (pack E m call dflt x t); reflexivity.
   Qed.
 End Comp.
 
@@ -682,7 +726,7 @@ Inductive op :=
 | OpCall (m: mode) (dl: option bool) (t: ty) (v: val).   (* an observed call *)
 
 Definition set_method (comp: list cname) (d: cdef) : cdef :=
-  if str_in (c_name d) comp then mkC (c_name d) (c_parent d) (c_fields d) (c_by_alias d) true else d.
+  if str_in (c_name d) comp then mkC (c_name d) (c_parent d) (c_fields d) (c_by_alias d) (c_omit_none d) true else d.
 
 Definition add_class (E: env) (d: cdef) (comp: list cname) : env :=
   match find_cls E (c_name d) with
@@ -764,7 +808,7 @@ Definition f_ (n: string) (t: ty) : fdef := mkF n None t.
 
 (* D8: look-alike members.  K0.x:int, K1.x:date *)
 Definition E_look : env :=
-  [mkC "K0" None [f_ "x" TInt] None true; mkC "K1" None [f_ "x" TDate] None true].
+  [mkC "K0" None [f_ "x" TInt] None None true; mkC "K1" None [f_ "x" TDate] None None true].
 Definition t_look := TUnion [TData "K0"; TData "K1"].
 Definition v_look := VObj "K1" [("x", VDate "2020-01-02")].
 
@@ -776,9 +820,9 @@ Proof. repeat split; reflexivity. Qed.
 
 (* strict-subclass instance at a parent-annotated position *)
 Definition E_sub : env :=
-  [mkC "K0" None [f_ "x" TInt] None true;
-   mkC "K1" (Some "K0") [f_ "x" TInt; f_ "y" TInt] None true;
-   mkC "K2" None [f_ "f" (TData "K0")] None true].
+  [mkC "K0" None [f_ "x" TInt] None None true;
+   mkC "K1" (Some "K0") [f_ "x" TInt; f_ "y" TInt] None None true;
+   mkC "K2" None [f_ "f" (TData "K0")] None None true].
 Definition v_sub := VObj "K2" [("f", VObj "K1" [("x", VInt 1); ("y", VInt 2)])].
 
 Lemma subclass_witness :
@@ -789,10 +833,10 @@ Proof. repeat split; try reflexivity. simpl. right. left. reflexivity. Qed.
 
 (* creating a class that annotates the plain subclass K1 changes what an existing call returns *)
 Definition E_fr : env :=
-  [mkC "K0" None [f_ "x" TInt] None true;
-   mkC "K1" (Some "K0") [f_ "x" TInt; f_ "y" TInt] None false].
+  [mkC "K0" None [f_ "x" TInt] None None true;
+   mkC "K1" (Some "K0") [f_ "x" TInt; f_ "y" TInt] None None false].
 Definition v_fr := VObj "K1" [("x", VInt 1); ("y", VInt 2)].
-Definition d_new := mkC "S0" None [f_ "g" (TOpt (TData "K1"))] None true.
+Definition d_new := mkC "S0" None [f_ "g" (TOpt (TData "K1"))] None None true.
 
 Lemma frame_subclass_witness :
   outs E_fr [OpCall Mixin None (TData "K0") v_fr] = [Ok (VDict [("x", VInt 1)])] /\
@@ -801,7 +845,7 @@ Lemma frame_subclass_witness :
 Proof. repeat split; reflexivity. Qed.
 
 (* a field-less dataclass member swallows every value on the codec path *)
-Definition E_fl : env := [mkC "K0" None [] None true].
+Definition E_fl : env := [mkC "K0" None [] None None true].
 Definition t_fl := TUnion [TData "K0"; TDate].
 Lemma fieldless_witness :
   exact E_fl (VDate "2020-01-02") t_fl = true /\
@@ -810,7 +854,7 @@ Lemma fieldless_witness :
 Proof. repeat split; reflexivity. Qed.
 
 (* call dialect has the highest, default dialect the lowest priority *)
-Definition E_dl : env := [mkC "K0" None [mkF "x" (Some "a_x") TInt] (Some false) true].
+Definition E_dl : env := [mkC "K0" None [mkF "x" (Some "a_x") TInt] (Some false) None true].
 Lemma dialect_witness :
   exact E_dl (VObj "K0" [("x", VInt 1)]) (TData "K0") = true /\ no_lookalike_union E_dl (TData "K0") = true /\
   run_pack E_dl Mixin (Some true) (TData "K0") (VObj "K0" [("x", VInt 1)]) = Ok (VDict [("a_x", VInt 1)]) /\
@@ -861,7 +905,7 @@ End UnpackComp.
 (* the order of union members is observable (so shape types that are equal up to member order -
    typing.Union compares them as sets - must not share a codec, e.g. in a cache of the one-shot functions) *)
 Definition E_tw : env :=
-  [mkC "A" None [f_ "ref" TInt] None true; mkC "B" None [f_ "ref" TStr] None true].
+  [mkC "A" None [f_ "ref" TInt] None None true; mkC "B" None [f_ "ref" TStr] None None true].
 Lemma union_order_witness :
   run_unpack E_tw Codec (TUnion [TData "A"; TData "B"]) (VDict [("ref", VStr "42")]) = Ok (VObj "A" [("ref", VInt 42)]) /\
   run_unpack E_tw Codec (TUnion [TData "B"; TData "A"]) (VDict [("ref", VStr "42")]) = Ok (VObj "B" [("ref", VStr "42")]) /\
@@ -873,7 +917,7 @@ Proof. repeat split; reflexivity. Qed.
    list of instances of ANOTHER class (dynamic dispatch finds their method, `str` positions are not checked) and
    leaks an instance; the codec path's static call fails and the right member is taken *)
 Definition E_uc : env :=
-  [mkC "A" None [f_ "x" TInt] None true; mkC "B" None [f_ "y" TInt] None true].
+  [mkC "A" None [f_ "x" TInt] None None true; mkC "B" None [f_ "y" TInt] None None true].
 Definition t_uc := TUnion [TTuple [TData "A"; TStr]; TList (TData "B")].
 Definition v_uc := VList [VObj "B" [("y", VInt 1)]; VObj "B" [("y", VInt 2)]].
 Lemma union_container_witness :
@@ -881,3 +925,191 @@ Lemma union_container_witness :
   run_pack E_uc Mixin None t_uc v_uc = Ok (VList [VDict [("y", VInt 1)]; VObj "B" [("y", VInt 2)]]) /\
   run_pack E_uc Codec None t_uc v_uc = Ok (VList [VDict [("y", VInt 1)]; VDict [("y", VInt 2)]]).
 Proof. repeat split; reflexivity. Qed.
+
+(* ------------------------------------------------------------------ *)
+(* decoding: the two paths agree on EVERY input (both dispatch statically); only the class of the
+   "no union member matched" error differs (InvalidFieldValue on a class, ValueError in a codec), and below a
+   dataclass not even that                                                                       *)
+Section TyInd.
+  Variable P : ty -> Prop.
+  Hypothesis HI : P TInt.
+  Hypothesis HS : P TStr.
+  Hypothesis HD : P TDate.
+  Hypothesis HL : forall t, P t -> P (TList t).
+  Hypothesis HDi : forall t, P t -> P (TDict t).
+  Hypothesis HT : forall ts, Forall P ts -> P (TTuple ts).
+  Hypothesis HO : forall t, P t -> P (TOpt t).
+  Hypothesis HU : forall ts, Forall P ts -> P (TUnion ts).
+  Hypothesis HDa : forall c, P (TData c).
+  Fixpoint ty_ind' (t: ty) : P t :=
+    match t with
+    | TInt => HI | TStr => HS | TDate => HD
+    | TList t' => HL t' (ty_ind' t')
+    | TDict t' => HDi t' (ty_ind' t')
+    | TTuple ts => HT ts ((fix go (l: list ty) : Forall P l :=
+                             match l with [] => Forall_nil _ | x :: r => Forall_cons _ (ty_ind' x) (go r) end) ts)
+    | TOpt t' => HO t' (ty_ind' t')
+    | TUnion ts => HU ts ((fix go (l: list ty) : Forall P l :=
+                             match l with [] => Forall_nil _ | x :: r => Forall_cons _ (ty_ind' x) (go r) end) ts)
+    | TData c => HDa c
+    end.
+End TyInd.
+
+Lemma norm_ok {A} (a: A) : norm (Ok a) = Ok a.
+Proof. reflexivity. Qed.
+
+Lemma norm_fmap {A B} (h: A -> B) r : fmap h (norm r) = norm (fmap h r).
+Proof. destruct r; reflexivity. Qed.
+
+Lemma mapM_norm {A B} (f g: A -> res B) l :
+  (forall x, In x l -> f x = norm (g x)) -> mapM f l = norm (mapM g l).
+Proof.
+  induction l as [|x r IH]; intros H; simpl; [reflexivity|].
+  rewrite (H x (or_introl eq_refl)). destruct (g x) as [y|e]; simpl; [|reflexivity].
+  rewrite IH; [|intros z Hz; apply H; right; exact Hz].
+  destruct (mapM g r); reflexivity.
+Qed.
+
+Lemma mapM_err_from {A B} (f: A -> res B) l e :
+  mapM f l = Err e -> exists x, In x l /\ f x = Err e.
+Proof.
+  induction l as [|x r IH]; simpl; [discriminate|].
+  destruct (f x) as [y|e'] eqn:Hx.
+  - destruct (mapM f r) as [ys|e''] eqn:Hr; [discriminate|].
+    intros H. inversion H; subst. destruct (IH eq_refl) as [z [Hz Hfz]]. exists z. split; [right; exact Hz|exact Hfz].
+  - intros H. inversion H; subst. exists x. split; [left; reflexivity|exact Hx].
+Qed.
+
+Section UnpackEqns.
+  Variables (E: env) (m: mode).
+  Notation up := (unpack E m).
+
+  Lemma unpack_TUnion v ts : up v (TUnion ts) = phase1 m v (up v) ts ts.
+  Proof. destruct v; reflexivity. Qed.
+  Lemma unpack_TOpt v t' : up v (TOpt t') = match v with VNone => Ok VNone | _ => up v t' end.
+  Proof. destruct v; reflexivity. Qed.
+  Lemma unpack_TInt v : up v TInt = coerce_int v.
+  Proof. destruct v; reflexivity. Qed.
+  Lemma unpack_TStr v : up v TStr = coerce_str v.
+  Proof. destruct v; reflexivity. Qed.
+  Lemma unpack_TDate v :
+    up v TDate = match v with VStr s => if is_iso s then Ok (VDate s) else Err XRaw | _ => Err XRaw end.
+  Proof. destruct v; reflexivity. Qed.
+End UnpackEqns.
+
+Lemma coerce_int_norm v : coerce_int v = norm (coerce_int v).
+Proof. destruct v; simpl; try reflexivity. destruct (parse_int s); reflexivity. Qed.
+Lemma coerce_str_norm v : coerce_str v = norm (coerce_str v).
+Proof. destruct v; reflexivity. Qed.
+
+Lemma phase2_norm v (f g: ty -> res val) l :
+  phase2 Mixin v l = norm (phase2 Codec v l).
+Proof.
+  induction l as [|t r IH]; [reflexivity|].
+  destruct t; simpl; try exact IH.
+  - destruct v; simpl; try exact IH; try reflexivity. destruct (parse_int s); [reflexivity|exact IH].
+  - destruct v; simpl; try exact IH; reflexivity.
+Qed.
+
+Lemma phase1_norm v (f g: ty -> res val) all l :
+  (forall t', In t' l -> f t' = norm (g t')) ->
+  phase1 Mixin v f all l = norm (phase1 Codec v g all l).
+Proof.
+  induction l as [|t r IH]; intros H; [simpl; apply (phase2_norm v f g)|].
+  assert (IH': phase1 Mixin v f all r = norm (phase1 Codec v g all r))
+    by (apply IH; intros t' Ht'; apply H; right; exact Ht').
+  assert (Hgen: forall t0, t0 = t -> f t0 = norm (g t0)) by (intros t0 ->; apply H; left; reflexivity).
+  destruct t;
+    try (simpl; rewrite (Hgen _ eq_refl);
+         match goal with |- context [g ?x] => destruct (g x) as [y|e] end;
+         simpl; [reflexivity|destruct e; simpl; try exact IH'; reflexivity]).
+  - destruct v; simpl; try exact IH'; reflexivity.
+  - destruct v; simpl; try exact IH'; reflexivity.
+Qed.
+
+Lemma tuple_cl_norm (l: list val) (F G: val -> ty -> res val) ts :
+  Forall (fun x => forall t, F x t = norm (G x t)) l ->
+  tuple_cl (map F l) ts = norm (tuple_cl (map G l) ts).
+Proof.
+  revert ts. induction l as [|x r IH]; intros [|t tr] Hall; simpl; try reflexivity.
+  inversion Hall as [|? ? Hx Hr]; subst. rewrite (Hx t). destruct (G x t) as [y|e]; simpl; [|reflexivity].
+  rewrite (IH tr Hr). destruct (tuple_cl (map G r) tr); reflexivity.
+Qed.
+
+Section UnpackAgree.
+  Variable E: env.
+  Notation um := (unpack E Mixin).
+  Notation uc := (unpack E Codec).
+
+  (* the generated field blocks turn every exception of a value unpacker into InvalidFieldValue: the class of
+     the inner error is not observable *)
+  Lemma unpack_fields_same c d (clm clc: list (string * (ty -> res val))) :
+    (forall key, match assoc clm key, assoc clc key with
+                 | Some gm, Some gc => forall t, gm t = norm (gc t)
+                 | None, None => True
+                 | _, _ => False end) ->
+    unpack_fields_cl c d clm = unpack_fields_cl c d clc.
+  Proof.
+    intros H. unfold unpack_fields_cl. f_equal. apply mapM_ext_in. intros f _.
+    specialize (H (match f_alias f with Some a => a | None => f_name f end)).
+    destruct (assoc clm _) as [gm|], (assoc clc _) as [gc|]; try contradiction; [|reflexivity].
+    rewrite (H (f_ty f)). destruct (gc (f_ty f)) as [y|e]; simpl; [reflexivity|destruct e; reflexivity].
+  Qed.
+
+  Lemma unpack_fields_no_union c d cl e :
+    unpack_fields_cl c d cl = Err e -> norm_err e = e.
+  Proof.
+    unfold unpack_fields_cl. destruct (mapM _ (c_fields d)) as [ys|e'] eqn:Hm; simpl; [discriminate|].
+    intros H. inversion H; subst. destruct (mapM_err_from _ _ _ Hm) as [f [_ Hf]].
+    destruct (assoc cl _) as [g|]; [|inversion Hf; reflexivity].
+    destruct (g (f_ty f)) as [y|e0]; [discriminate|]. destruct e0; inversion Hf; reflexivity.
+  Qed.
+
+  Theorem unpack_agree_all : forall v t, um v t = norm (uc v t).
+  Proof.
+    induction v using val_ind'; intros t; induction t using ty_ind';
+      try (rewrite !unpack_TInt; apply coerce_int_norm);
+      try (rewrite !unpack_TStr; apply coerce_str_norm);
+      try (rewrite !unpack_TDate; simpl; try reflexivity; match goal with |- context [is_iso ?s] => destruct (is_iso s); reflexivity end);
+      try (rewrite !unpack_TOpt; first [reflexivity | assumption]);
+      try (rewrite !unpack_TUnion; apply phase1_norm; intros t' Ht';
+           match goal with Hf: Forall _ ?ts |- _ => rewrite Forall_forall in Hf; exact (Hf t' Ht') end);
+      try reflexivity.
+    all: try (simpl; destruct (find_cls E c) as [d|]; reflexivity).
+    all: try (simpl; destruct ts; reflexivity).
+    - (* VList / TList *)
+      simpl. rewrite <- norm_fmap. f_equal. apply mapM_norm. intros x Hx. rewrite Forall_forall in H. exact (H x Hx t).
+    - (* VList / TTuple *)
+      simpl. destruct ts as [|t0 tr]; [reflexivity|]. rewrite <- norm_fmap. f_equal. apply tuple_cl_norm. exact H.
+    - (* VTuple / TList *)
+      simpl. rewrite <- norm_fmap. f_equal. apply mapM_norm. intros x Hx. rewrite Forall_forall in H. exact (H x Hx t).
+    - (* VTuple / TTuple *)
+      simpl. destruct ts as [|t0 tr]; [reflexivity|]. rewrite <- norm_fmap. f_equal. apply tuple_cl_norm. exact H.
+    - (* VDict / TDict *)
+      simpl. rewrite <- norm_fmap. f_equal. apply mapM_norm. intros [k x] Hx. rewrite Forall_forall in H.
+      pose proof (H (k, x) Hx t) as Hq. simpl in Hq. rewrite Hq. destruct (uc x t); reflexivity.
+    - (* VDict / TData *)
+      simpl. destruct (find_cls E c) as [d|]; [|reflexivity].
+      rewrite (unpack_fields_same c d
+                 (map (fun kv : string * val => match kv with (k, x) => (k, um x) end) kvs)
+                 (map (fun kv : string * val => match kv with (k, x) => (k, uc x) end) kvs)).
+      + destruct (unpack_fields_cl c d _) as [y|e] eqn:He; simpl; [reflexivity|].
+        rewrite (unpack_fields_no_union _ _ _ _ He). reflexivity.
+      + intros key. rewrite (assoc_map um), (assoc_map uc).
+        destruct (assoc kvs key) as [x|] eqn:Ha; simpl; [|exact I].
+        intros t0. rewrite Forall_forall in H.
+        assert (Hin: In (key, x) kvs).
+        { clear -Ha. induction kvs as [|[k' x'] r IH]; simpl in *; [discriminate|].
+          destruct (String.eqb_spec k' key) as [->|Hne]; [inversion Ha; left; reflexivity|right; apply IH; exact Ha]. }
+        exact (H (key, x) Hin t0).
+    - (* VObj / TData *) simpl. destruct (find_cls E c0) as [d|]; reflexivity.
+  Qed.
+
+  (* below a dataclass the paths agree exactly *)
+  Theorem unpack_agree_data v c : um v (TData c) = uc v (TData c).
+  Proof.
+    rewrite unpack_agree_all. destruct (uc v (TData c)) as [y|e] eqn:He; [reflexivity|]. simpl. f_equal.
+    destruct v; simpl in He; destruct (find_cls E c) as [d|]; try (inversion He; reflexivity).
+    exact (unpack_fields_no_union _ _ _ _ He).
+  Qed.
+End UnpackAgree.
